@@ -205,9 +205,16 @@ class C15(Property):
             genes.append([lo, hi])
             pos = max(pos, hi)
         genes.sort(key=lambda g: g[0])
-        if rng.random() < 0.05 and len(genes) > 1:
-            rng.shuffle(genes)     # violates the documented precondition: correspondence only
+        if rng.random() < 0.15 and len(genes) > 1:
+            rng.shuffle(genes)     # any order is fine: the function orders by start itself (D66-C15)
         end_all = max([g[1] for g in genes] + [pos]) + rng.choice([0, 1, pad, 40])
+        if rng.random() < 0.15:     # an origin-spanning gene, listed first as the record would: join{[x, L), [0, y)}
+            L = max(end_all, 12) + rng.choice([5, 30])
+            strand = rng.choice([1, -1])
+            y = rng.randrange(1, min(30, L // 3) + 1)
+            parts = [[rng.randrange(max(L - 40, y + 1), L), L, strand], [0, y, strand]]
+            genes.insert(0, parts if strand == 1 else parts[::-1])
+            end_all = L
         start = rng.choice([0, 0, 0, 5, 12, end_all // 2])
         end = rng.choice([end_all, end_all, max(end_all - 7, 0), end_all // 2 + 1])
         return {"kind": "gaps", "start": start, "end": end, "genes": genes,
@@ -270,6 +277,51 @@ class C15(Property):
         cut2 = rng.randrange(cut1 + 1, hi - 1)
         parts = [[lo, cut1, strand], [cut2, hi, strand]]
         return parts if strand == 1 else parts[::-1]
+
+    def allorfs_origin_gene_case(self, rng: random.Random) -> Dict[str, Any]:
+        """a circular record with an existing CDS running over the origin (join{[x, L), [0, y)}, either strand),
+        other genes inside and outside the stretch it covers, ORFs planted inside the stretch it covers and in
+        the free middle; searched as a whole, with a non-crossing area and with a crossing area"""
+        L = rng.choice([90, 150, 240, 300])
+        seq = [rng.choice("ACGT") for _ in range(L)]
+        pad = rng.choice([0, 3, 10])
+        minlen = rng.choice([6, 9, 12, 30])
+        y = rng.randrange(L // 6, L // 2)          # post-origin part [0, y)
+        x = rng.randrange(y + L // 4, L - 2)       # pre-origin part [x, L)
+        strand = rng.choice([1, -1])
+        y0 = 0 if rng.random() < 0.75 or y < 12 else rng.randrange(3, y - 6)   # an intron over the origin: hull starts > 0
+        parts = [[x, L, strand], [y0, y, strand]]
+        genes: List[Any] = [parts if strand == 1 else parts[::-1]]
+        if y0 and rng.random() < 0.7:
+            genes.append([0, rng.randrange(1, y0 + 1), rng.choice([1, -1])])          # a gene before that hull
+        for _ in range(rng.choice([0, 1, 2])):     # ordinary genes, inside the covered stretch or in the middle
+            lo = rng.randrange(0, L - 7)
+            hi = min(L, lo + rng.choice([3, 9, 21, 45]))
+            if all(isinstance(g[0], list) or (g[0], g[1]) != (lo, hi) for g in genes):
+                genes.append([lo, hi, rng.choice([1, -1])])
+        for _ in range(rng.choice([1, 2, 3])):     # ORFs inside the stretch the origin-spanning gene covers
+            length = max(6, rng.choice([minlen + 3, minlen + 9, 21, 33]))
+            if rng.random() < 0.6 and length + 1 < y:
+                self.plant(rng, seq, L, rng.randrange(0, y - length), length, rng.random() < 0.5)
+            elif x + length + 1 < L:
+                self.plant(rng, seq, L, rng.randrange(x, L - length), length, rng.random() < 0.5)
+            else:
+                self.plant(rng, seq, L, (L - rng.randrange(1, length)) % L, length, rng.random() < 0.5)
+        if rng.random() < 0.7:                     # and one in the free middle
+            length = max(6, minlen + 3)
+            if y + pad + length + 1 < x - pad:
+                self.plant(rng, seq, L, rng.randrange(y + pad, x - pad - length), length, rng.random() < 0.5)
+        r = rng.random()
+        area: Any = None
+        if r < 0.35:
+            lo = rng.randrange(0, y)               # non-crossing area overlapping the gene's post-origin part
+            area = [lo, rng.randrange(lo + 10, L + 1)]
+        elif r < 0.5:
+            area = [rng.randrange(y, x), L]        # … or its pre-origin part
+        elif r < 0.75:
+            area = [[rng.randrange(L // 2, L), L], [0, rng.randrange(1, L // 2)]]
+        return {"kind": "allorfs", "rec": "".join(seq), "circular": True, "genes": genes, "area": area,
+                "minlen": minlen, "pad": pad}
 
     def allorfs_nested_case(self, rng: random.Random) -> Dict[str, Any]:
         """a long gene reaching into the searched area, later-starting genes nested in / overlapping it that end
@@ -364,7 +416,9 @@ class C15(Property):
         for _ in range(8000 * mult):
             yield self.gaps_case(rng)
         for _ in range(1500 * mult):
-            yield self.allorfs_case(rng) if rng.random() < 0.6 else self.allorfs_nested_case(rng)
+            r = rng.random()
+            yield (self.allorfs_case(rng) if r < 0.45 else self.allorfs_nested_case(rng) if r < 0.75
+                   else self.allorfs_origin_gene_case(rng))
         for _ in range(4000 * mult):
             yield self.trim_case(rng)
         if deep:
@@ -425,7 +479,12 @@ class C15(Property):
 
     def impl_gaps(self, case: Dict[str, Any]) -> Dict[str, Any]:
         from antismash.common.all_orfs import find_intergenic_areas
-        cdses = [common.dummy_cds({"c": False, "parts": [[lo, hi, 1]]}, f"g{lo}_{hi}") for lo, hi in case["genes"]]
+        cdses = []
+        for g in case["genes"]:
+            if isinstance(g[0], list):
+                cdses.append(common.dummy_cds({"c": True, "parts": g}, "g" + "_".join(str(p[0]) for p in g)))
+            else:
+                cdses.append(common.dummy_cds({"c": False, "parts": [[g[0], g[1], 1]]}, f"g{g[0]}_{g[1]}"))
         areas = find_intergenic_areas(case["start"], case["end"], cdses, min_length=case["minlen"],
                                       padding=case["pad"])
         return {"areas": [[int(a), int(b)] for a, b in areas]}
@@ -524,7 +583,10 @@ class C15(Property):
             return {"kind": kind, "seq": case["seq"], "fwd": case["fwd"], "offset": case["offset"],
                     "minlen": case["minlen"], "reclen": case["reclen"]}
         if kind == "gaps":
-            return {"kind": kind, "start": case["start"], "end": case["end"], "genes": case["genes"],
+            # the gap search reads `cds.location.start` / `.end`: the coordinate hull of a multi-part location
+            hulls = [[min(p[0] for p in g), max(p[1] for p in g)] if isinstance(g[0], list) else [g[0], g[1]]
+                     for g in case["genes"]]
+            return {"kind": kind, "start": case["start"], "end": case["end"], "genes": hulls,
                     "minlen": case["minlen"], "pad": case["pad"], "impl": obs.get("areas", [])}
         if kind == "allorfs":
             if "all_genes" not in obs:
@@ -653,6 +715,8 @@ class C15(Property):
                 "wrapped" if any(f["loc"]["c"] for f in feats) else "unwrapped", f"orfs{min(len(feats), 4)}",
                 "nested-genes" if nested else "plain-genes",
                 "multi-exon-genes" if any(isinstance(g[0], list) for g in case["genes"]) else "one-exon-genes",
+                "origin-spanning-gene" if any(isinstance(g[0], list) and max(p[1] for p in g) == len(case["rec"])
+                                              and case.get("circular") for g in case["genes"]) else "no-origin-gene",
                 "translation-modelled" if any(m["translation"] is not None for m in model) else "translation-python-only")
         return Judgement(corr, spec_ok, in_scope=scope, nontrivial=bool(feats), tags=tags, detail=detail)
 
